@@ -367,17 +367,18 @@ def PV.vec? : PV R → Option (List R)
   | .vec l => some l
   | _ => none
 
-/-- `write_support_file` / `write_converge_file` (l.288-330) build a NEW monitor from `mon.x, mon.y`
-(already divided by `k`), then set `monitor.k = mon.k` on it, so that `write_raw_file` divides the costs by
-`k` a second time (the code as it is; see `Props/C20.lean`, `support_cost_witness`) -/
-def Mon.costViaCopy [Div R] (m : Mon R) : List (PV R) := m.getY.map (cdiv m.k)
+/-- `write_support_file` / `write_converge_file` (munge.py l.288-330, after fix 2b1798b) build a NEW monitor with
+`write_monitor(steps, mon.y, k=mon.k)`: the costs `mon.y` (already divided by `k`) are multiplied by `k` again
+(`mon._k(energy, iter)`), and `write_raw_file` reads them through `monitor.y`, i.e. divides by `k` once more.
+Over a field this is the recorded cost; at `Float` it is `(((y*k)/k)*k)/k`. -/
+def Mon.costViaCopy [Mul R] [Div R] (m : Mon R) : List (PV R) := (m.getY.map (cmul m.k)).map (cdiv m.k)
 
-def Mon.writeSupport [Div R] (m : Mon R) : Option (RawFile R (List (List (List R)))) :=
+def Mon.writeSupport [Mul R] [Div R] (m : Mon R) : Option (RawFile R (List (List (List R)))) :=
   match m.x.mapM PV.vec? with
   | none => none
   | some xs => some { ids := processIds (idsWritten m.id) m.y.length, params := rawToSupport xs, cost := m.costViaCopy }
 
-def Mon.writeConverge [Div R] (m : Mon R) : Option (RawFile R (List (List (List R)))) :=
+def Mon.writeConverge [Mul R] [Div R] (m : Mon R) : Option (RawFile R (List (List (List R)))) :=
   match m.x.mapM PV.vec? with
   | none => none
   | some xs => some { ids := processIds (idsWritten m.id) m.y.length, params := rawToConverge xs, cost := m.costViaCopy }
